@@ -216,7 +216,18 @@ def constructors(I):
 
     def opt(e, default=_NODEFAULT):
         return Optional(_pe(e), default)
+    def one_of(strs, caseless=False, **k):
+        import re as _re
+        if isinstance(strs, str):
+            strs = strs.split()
+        strs = list(strs.take_all()) if isinstance(strs, GenVal) else list(strs)
+        if not strs or not all(isinstance(x, str) for x in strs):
+            raise AnalysisError("oneOf of non-constant strings")
+        # pyparsing moves a string in front of any earlier string that is a prefix of it: the longest alternative wins
+        alts = sorted(dict.fromkeys(strs), key=len, reverse=True)
+        return Regex("(?:" + "|".join(_re.escape(x) for x in alts) + ")")
     table = {
+        "oneOf": one_of, "one_of": one_of,
         "Literal": lit, "Keyword": lit, "CaselessLiteral": lit, "Regex": rx, "White": lambda *a, **k: White(*[x for x in a if isinstance(x, str)]),
         "Optional": opt, "Opt": opt, "ZeroOrMore": lambda e, **k: ZeroOrMore(_pe(e)), "OneOrMore": lambda e, **k: OneOrMore(_pe(e)),
         "Group": lambda e, **k: Group(_pe(e)), "Suppress": lambda e: Suppress(_pe(e)), "Forward": lambda *a: Forward(_pe(a[0]) if a else None),
